@@ -156,3 +156,34 @@ package qbft
 //@ props C05
 //@ pure
 //@ ensures result <==> t > 0 && t < 6
+
+//@ spec func allRC(s []Msg, round int64) bool = forall(k, 0, len(s), s[k].Type() == MsgRoundChange && s[k].Round() > round)
+//@ spec func validType(m Msg) bool = m.Type() > MsgUnknown && m.Type() < msgSentinel
+
+//@ func getFPlus1RoundChanges
+//@ props C02 C04
+//@ nopanic
+//@ requires nodesOK(d)
+//@ ensures r1 ==> len(r0) == faulty(d) + 1 && allRC(r0, round) && distinctSources(r0)
+//@ ensures r1 ==> forall(k, 0, len(r0), exists(j, 0, len(all), all[j] == r0[k]))
+//@ canary r1
+//@ loop 1 invariant forallk(s, highestBySource, highestBySource[s].Type() == MsgRoundChange && highestBySource[s].Round() > round && highestBySource[s].Source() == s && exists(j, 0, $i, all[j] == highestBySource[s]))
+//@ loop 1 invariant len(highestBySource) <= faulty(d)
+//@ loop 2 invariant len(resp) == $i
+//@ loop 2 invariant forall(k, 0, $i, resp[k] == highestBySource[$ks[k]])
+
+//@ func classify
+//@ props C02 C03 C04
+//@ nopanic
+//@ requires nodesOK(d)
+//@ requires validType(msg)
+//@ ensures r0 == UponQuorumPrepares ==> msg.Type() == MsgPrepare && msg.Round() == round && len(r1) >= quorum(d) && distinctSources(r1) && allOf(r1, MsgPrepare, round, msg.Value())
+//@ ensures r0 == UponQuorumCommits ==> msg.Type() == MsgCommit && msg.Round() == round && len(r1) >= quorum(d) && distinctSources(r1) && allOf(r1, MsgCommit, round, msg.Value())
+//@ ensures r0 == UponJustifiedDecided <==> msg.Type() == MsgDecided
+//@ ensures r0 == UponJustifiedDecided ==> r1 == msg.Justification()
+//@ ensures r0 == UponJustifiedPrePrepare <==> msg.Type() == MsgPrePrepare && msg.Round() >= round
+//@ ensures r0 == UponFPlus1RoundChanges ==> msg.Type() == MsgRoundChange && msg.Round() > round && len(r1) == faulty(d) + 1 && allRC(r1, round) && distinctSources(r1)
+//@ ensures r0 == UponQuorumRoundChanges ==> msg.Type() == MsgRoundChange && msg.Round() == round && d.IsLeader(instance, round, process)
+//@ ensures r0 == UponUnjustQuorumRoundChanges ==> msg.Type() == MsgRoundChange && msg.Round() == round
+//@ ensures r0 >= UponNothing && r0 <= UponJustifiedDecided
+//@ canary r0 == UponNothing
